@@ -45,6 +45,7 @@ var c43NotTableHandlers = map[string]string{
 }
 
 func runC43(w *World, r *Report) {
+	c43TransactionOwner(w, r)
 	r.Rule("R-C43-1", "must-pass-through (edge cut): in each table route handler every statement-executing call (Database.Exec/Query/Begin or an in-package helper that reaches one) is unreachable once the edges {Session.Admin true, Authorized(...) true} are removed", 10)
 	r.Rule("R-C43-2", "operation agreement: every Authorized call passes at least one constant permission, and in a route handler that permission matches the route's HTTP method", 10)
 	r.Rule("R-C43-3", "tables.Authorized: with every granted edge removed and at least one operation requested, no consistent path returns a possibly-true result except through {administrator, unrestricted DSN, permissions not configured}; the grant lookup filters on existing columns user, dsn, table", 2)
@@ -723,3 +724,175 @@ func opensWithAdminAction(fn *ssa.Function) bool {
 }
 
 var dsnAdminActionValue int64 = -1
+
+// c43TransactionOwner: R-C43-6. A REST transaction parks a database handle that
+// carries the session of the user who opened it, and parts of package tables
+// judge grants by that session (the table listing). The handle, and the power
+// to commit or roll the transaction back, must therefore go only to that user
+// (or an administrator): every use of a transaction looked up by the id in the
+// request lies behind an ownership test of the handle against the request's
+// session.
+func c43TransactionOwner(w *World, r *Report) {
+	r.Rule("R-C43-6", "a transaction handle is used only by its creator: in package tables every use of a transaction found by the id in the request (returning its database handle, Commit, Rollback, removing it) is reachable only through the true edge of a test that compares the user of the session stored in the handle with the user of the request's session", 3)
+
+	tp := w.pkg("internal/server/tables")
+	if tp == nil {
+		return
+	}
+
+	// owner predicates: bool functions of package tables over (*Database, *Session)
+	// whose result involves a comparison of the two User fields
+	isUserOf := func(v ssa.Value, typeSuffix string) bool {
+		return derivesFrom(v, func(s ssa.Value) bool {
+			u, ok := s.(*ssa.UnOp)
+			if !ok {
+				return false
+			}
+
+			fa, ok := u.X.(*ssa.FieldAddr)
+
+			return ok && fieldName(fa.X.Type(), fa.Field) == "User" && strings.HasSuffix(fa.X.Type().String(), typeSuffix)
+		}, nil)
+	}
+
+	comparesUsers := func(fn *ssa.Function) bool {
+		found := false
+
+		allInstrs(fn, func(in ssa.Instruction) {
+			switch x := in.(type) {
+			case *ssa.BinOp:
+				if x.Op == token.EQL && isUserOf(x.X, "router.Session") && isUserOf(x.Y, "router.Session") {
+					found = true
+				}
+			case *ssa.Call:
+				if callID(x.Common()) == "strings.EqualFold" && len(x.Call.Args) == 2 && isUserOf(x.Call.Args[0], "router.Session") && isUserOf(x.Call.Args[1], "router.Session") {
+					found = true
+				}
+			}
+		})
+
+		return found
+	}
+
+	predicates := map[*ssa.Function]bool{}
+
+	for _, fn := range w.srcFuncs(tp) {
+		if fn.Signature.Results().Len() == 1 && isBoolType(fn.Signature.Results().At(0).Type()) && comparesUsers(fn) {
+			predicates[fn] = true
+		}
+	}
+
+	isOwnerTest := func(v ssa.Value) bool {
+		c, ok := v.(*ssa.Call)
+
+		return ok && predicates[c.Common().StaticCallee()]
+	}
+
+	n := 0
+
+	for _, fn := range w.srcFuncs(tp) {
+		hasSession := false
+
+		for _, p := range fn.Params {
+			if strings.HasSuffix(p.Type().String(), "router.Session") {
+				hasSession = true
+			}
+		}
+
+		if !hasSession || predicates[fn] {
+			continue
+		}
+
+		// where does the function get hold of a transaction?
+		var sources []ssa.Value
+
+		allInstrs(fn, func(in ssa.Instruction) {
+			switch x := in.(type) {
+			case *ssa.Lookup:
+				if u, ok := x.X.(*ssa.UnOp); ok {
+					if g, ok := u.X.(*ssa.Global); ok && g.Name() == "transactions" {
+						sources = append(sources, x)
+					}
+				}
+			case *ssa.Call:
+				if callID(x.Common()) == "internal/server/tables.GetTransactionDB" {
+					sources = append(sources, x)
+				}
+			}
+		})
+
+		if len(sources) == 0 {
+			continue
+		}
+
+		fromSource := func(v ssa.Value) bool {
+			return derivesFrom(v, func(s ssa.Value) bool {
+				for _, src := range sources {
+					if s == src {
+						return true
+					}
+				}
+
+				return false
+			}, nil)
+		}
+
+		cuts := cutEdges(fn, func(f Fact) bool {
+			if f.Kind != "true" {
+				return false
+			}
+
+			if isOwnerTest(f.V) {
+				return true
+			}
+
+			// inline comparison
+			if bo, ok := f.V.(*ssa.BinOp); ok && bo.Op == token.EQL && isUserOf(bo.X, "router.Session") && isUserOf(bo.Y, "router.Session") {
+				return true
+			}
+
+			if c, ok := f.V.(*ssa.Call); ok && callID(c.Common()) == "strings.EqualFold" && isUserOf(c.Call.Args[0], "router.Session") && isUserOf(c.Call.Args[1], "router.Session") {
+				return true
+			}
+
+			return false
+		})
+
+		// uses of the transaction
+		allInstrs(fn, func(in ssa.Instruction) {
+			what := ""
+
+			switch x := in.(type) {
+			case *ssa.Call:
+				id := callID(x.Common())
+				if (strings.HasSuffix(id, "database.Database.Commit") || strings.HasSuffix(id, "database.Database.Rollback")) && len(x.Call.Args) > 0 && fromSource(x.Call.Args[0]) {
+					what = strings.TrimPrefix(id[strings.LastIndex(id, ".")+1:], ".")
+				}
+			case *ssa.Return:
+				for _, res := range retResults(x) {
+					if strings.HasSuffix(res.Type().String(), "database.Database") && !isNilConst(res) && fromSource(res) {
+						what = "handle returned"
+					}
+				}
+			}
+
+			if what == "" {
+				return
+			}
+
+			n++
+
+			key := fnKey(fn) + "|" + what + " behind the ownership test"
+
+			if len(cuts) == 0 || instrReachableAfterCut(fn, in, cuts) {
+				r.Violate("R-C43-6", key, w.pos(in.Pos()), "a transaction found by the id in the request is used without the request's user being compared with the user who opened it: naming another user's transaction, a caller lists the tables only that user may read (the listing judges the session stored in the handle) and commits or rolls back that user's work")
+			} else {
+				r.Discharge("R-C43-6", key, w.pos(in.Pos()), "only behind the ownership test")
+			}
+		})
+	}
+
+	if n == 0 {
+		r.Anchor("R-C43-6", "uses of a transaction looked up by id in package tables")
+	}
+}
